@@ -75,7 +75,7 @@ pub fn run(cfg: &Cfg, rep: &mut Report) {
         hays.truncate(budget + 4);
         if let Some(re) = &re {
             for hay in &hays {
-                for start in gen::boundaries(hay) {
+                for start in thin_starts(gen::boundaries(hay)) {
                     for (name, api) in [("u8", Api::Utf8), ("pike", Api::Pike), ("ascii", Api::Ascii)] {
                         if api == Api::Ascii && !hay.is_ascii() {
                             continue;
